@@ -35,8 +35,27 @@ def keys (s : StrMap) : List SKey := s.items.map (·.1)
 /-- representation invariant of the spec itself: keys pairwise distinct -/
 def WF (s : StrMap) : Prop := s.keys.Nodup
 
+/-- operations of an iterator session (between `iter_init` and the end of its use): the iterator calls
+and the table queries that do not invalidate the iterator -/
+inductive IOp where
+  | next
+  | remove (wantOut : Bool)
+  | get (k : SKey)
+  | contains (k : SKey)
+  | size
+  deriving Repr, DecidableEq
+
+/-- what a call of an iterator session returns: status (`.ok` for the `bool` / `size_t` queries), yielded
+key, yielded / removed / queried value -/
+structure IOut where
+  st  : Stat
+  key : Option SKey := none
+  val : Option Nat := none
+  deriving Repr, DecidableEq
+
 /-- operations of a TST history; `add` carries the allocator schedule of the call (`true` = the
-next allocator request is refused), which only the concrete model interprets -/
+next allocator request is refused), which only the concrete model interprets; `iterate` is a whole
+iterator session: `iter_init` followed by the given calls -/
 inductive Op where
   | add (k : SKey) (v : Nat) (sched : List Bool)
   | get (k : SKey)
@@ -45,43 +64,27 @@ inductive Op where
   | removeAll
   | size
   | enumerate          -- foreach_key / foreach_value / a complete iterator pass
+  | iterate (prog : List IOp)
   deriving Repr, DecidableEq
 
 /-- what a call returns: status (`none` for `void`/`bool`/`size_t` functions), out-value,
-and for `enumerate` the yielded `(key, value)` pairs -/
+for `enumerate` the yielded `(key, value)` pairs, for `iterate` the results of the session's calls;
+`legal` (spec side) says that every key the session yielded was one the ideal cursor could yield -/
 structure Out where
   st   : Option Stat := none
   val  : Option Nat := none
   enum : List (SKey × Nat) := []
+  iter : List IOut := []
+  legal : Bool := true
   deriving Repr, DecidableEq
 
-/-- one step; `refused` says whether an allocator request of this call was refused (the spec does
-not know how many requests a call makes) -/
-def step (s : StrMap) (refused : Bool) : Op → Out × StrMap
-  | .add k v _ => if refused then ({ st := some .errAlloc }, s) else ({ st := some .ok }, s.add k v)
-  | .get k => match s.get k with
-    | some v => ({ st := some .ok, val := some v }, s)
-    | none => ({ st := some .errKeyNotFound }, s)
-  | .contains k => ({ val := some (if s.contains k then 1 else 0) }, s)
-  | .remove k => match s.get k with
-    | some v => ({ st := some .ok, val := some v }, s.remove k)
-    | none => ({ st := some .errKeyNotFound }, s)
-  | .removeAll => ({}, s.removeAll)
-  | .size => ({ val := some s.size }, s)
-  | .enumerate => ({ enum := s.items }, s)
-
-/-- the key an operation mentions -/
-def Op.key : Op → Option SKey
-  | .add k _ _ => some k
-  | .get k => some k
-  | .contains k => some k
-  | .remove k => some k
-  | _ => none
-
-/-- a history; each operation comes with the flag "an allocator request of this call was refused" -/
-def run (s : StrMap) : List (Bool × Op) → List Out × StrMap
-  | [] => ([], s)
-  | (f, op) :: ops => let r := s.step f op; let rs := run r.2 ops; (r.1 :: rs.1, rs.2)
+/-- what the spec is told about the implementation's run of one call: whether an allocator request was
+refused (the spec does not know how many requests a call makes) and which keys an iterator session
+yielded (the enumeration order is the implementation's choice; the cursor validates each choice) -/
+structure Oracle where
+  refused : Bool := false
+  choices : List (Option SKey) := []
+  deriving Repr, DecidableEq
 
 /-! ### ideal cursor: the keys still to be yielded and the key yielded last -/
 structure Cursor where
@@ -115,27 +118,20 @@ def cursorRemove (s : StrMap) (c : Cursor) : Stat × Option Nat × StrMap × Cur
     | some v => (.ok, some v, s.remove k, { c with last := none })
     | none => (.errKeyNotFound, none, s, c)
 
-/-- operations of an iterator program (between `iter_init` and the end of its use) -/
-inductive IOp where
-  | next
-  | remove (wantOut : Bool)
-  deriving Repr, DecidableEq
-
-/-- what an iterator call returns: status, yielded key, yielded / removed value -/
-structure IOut where
-  st  : Stat
-  key : Option SKey := none
-  val : Option Nat := none
-  deriving Repr, DecidableEq
-
-/-- one iterator call on the ideal cursor; the third component says whether `choice` was a legal yield -/
+/-- one call of an iterator session on the ideal cursor; the second component says whether `choice`
+was a legal yield -/
 def cursorStep (s : StrMap) (c : Cursor) (choice : Option SKey) : IOp → IOut × Bool × StrMap × Cursor
   | .next => let r := cursorNext s c choice
              ({ st := r.1, key := r.2.1.map (·.1), val := r.2.1.map (·.2) }, r.2.2.1, s, r.2.2.2)
   | .remove _ => let r := cursorRemove s c
                  ({ st := r.1, val := r.2.1 }, true, r.2.2.1, r.2.2.2)
+  | .get k => match s.get k with
+    | some v => ({ st := .ok, val := some v }, true, s, c)
+    | none => ({ st := .errKeyNotFound }, true, s, c)
+  | .contains k => ({ st := .ok, val := some (if s.contains k then 1 else 0) }, true, s, c)
+  | .size => ({ st := .ok, val := some s.size }, true, s, c)
 
-/-- an iterator program; every call comes with the key the implementation yielded (if any) -/
+/-- an iterator session; every call comes with the key the implementation yielded (if any) -/
 def cursorRun (s : StrMap) (c : Cursor) : List (Option SKey × IOp) → List (IOut × Bool) × StrMap × Cursor
   | [] => ([], s, c)
   | (ch, op) :: ops =>
@@ -143,11 +139,41 @@ def cursorRun (s : StrMap) (c : Cursor) : List (Option SKey × IOp) → List (IO
     let rs := cursorRun r.2.2.1 r.2.2.2 ops
     ((r.1, r.2.1) :: rs.1, rs.2)
 
-/-- the iterator contract: `remove` at most once per yielded element (never directly after a `remove`) -/
-def legalProg : Bool → List IOp → Bool
-  | _, [] => true
-  | _, .next :: ops => legalProg false ops
-  | afterRemove, .remove _ :: ops => !afterRemove && legalProg true ops
+/-- one step of a history -/
+def step (s : StrMap) (orc : Oracle) : Op → Out × StrMap
+  | .add k v _ => if orc.refused then ({ st := some .errAlloc }, s) else ({ st := some .ok }, s.add k v)
+  | .get k => match s.get k with
+    | some v => ({ st := some .ok, val := some v }, s)
+    | none => ({ st := some .errKeyNotFound }, s)
+  | .contains k => ({ val := some (if s.contains k then 1 else 0) }, s)
+  | .remove k => match s.get k with
+    | some v => ({ st := some .ok, val := some v }, s.remove k)
+    | none => ({ st := some .errKeyNotFound }, s)
+  | .removeAll => ({}, s.removeAll)
+  | .size => ({ val := some s.size }, s)
+  | .enumerate => ({ enum := s.items }, s)
+  | .iterate prog =>
+    let r := cursorRun s (cursorNew s) (orc.choices.zip prog)
+    ({ iter := r.1.map (·.1), legal := r.1.all (·.2) }, r.2.1)
+
+def IOp.keys : IOp → List SKey
+  | .get k => [k]
+  | .contains k => [k]
+  | _ => []
+
+/-- the keys an operation mentions -/
+def Op.keys : Op → List SKey
+  | .add k _ _ => [k]
+  | .get k => [k]
+  | .contains k => [k]
+  | .remove k => [k]
+  | .iterate prog => prog.flatMap IOp.keys
+  | _ => []
+
+/-- a history; each operation comes with what the spec is told about the implementation's run of it -/
+def run (s : StrMap) : List (Oracle × Op) → List Out × StrMap
+  | [] => ([], s)
+  | (f, op) :: ops => let r := s.step f op; let rs := run r.2 ops; (r.1 :: rs.1, rs.2)
 
 end StrMap
 end CC.Spec
